@@ -8,3 +8,11 @@ package props
 var Harnesses = map[string]func(){}
 
 func reg(name string, f func()) { Harnesses[name] = f }
+
+// resetGlobals puts the package-level scenario switches back to their initial values. The
+// engine starts every path from freshly initialised globals; the native replay binary runs many
+// harnesses in one process and has to do the same.
+func resetGlobals() {
+	small, noCall, fullAmounts = false, false, false
+	scnItems, scnDNS = nil, nil
+}
